@@ -28,7 +28,7 @@ EXPLANATION = (
     "the same element. (R20.3) write_to_net stores the attribute that the same arm (el_power_led or not) of control_step "
     "assigned, into the column the opposite side reads. (R20.4) _evaluate_multinet aggregates the member verdicts with "
     "np.all, re-evaluates only nets selected by _relevant_nets and keeps the previous entry for the others. (R20.5) the "
-    "top-level error tuple covers the pandapipes members' non-convergence class. Not decided: that member nets hold the "
+    "top-level error tuple covers the pandapipes members' non-convergence class. (R20.6) get_all_net_names of every coupling controller returns exactly the member nets its control step reads or writes, so that _relevant_nets recalculates every net that was written. Not decided: that member nets hold the "
     "results of a stand-alone calculation (runtime).")
 ASSUMPTIONS = ["pandas .at / .loc address the same cell for a scalar index", "the higher heating value property is positive"]
 TECHNIQUE = "normal forms of the conversion factors and control-step formulas; structural agreement of sibling arms"
@@ -117,7 +117,11 @@ def r20_1(run):
             st = {"fi": cs, "env": {"self": PyVal("<cls>")}, "G": phys.A.BExpr.true(), "loopvars": set(), "kernel": None, "mask": None, "returned": False}
             val = phys.tonum(ki.eval(final[0].value, st))
             fac = _method_value(ix, ci, [m for m in ci.methods if m.startswith("conversion_factor")][0])
-            want = g(Poly.sym(attr_read)) * fac * g(Poly.sym("self", "efficiency"))
+            # the value read from the net is the one free symbol of the expression that is not an attribute of self
+            free = sorted({a for gd, p_ in val.cases for a in p_.symbols() if not (len(a) >= 2 and a[1] == "self")}, key=repr)
+            if len(free) != 1:
+                raise AnalysisError("%s.control_step: expected one value read from the net in %s" % (ci.name, val))
+            want = g(Poly.atom(free[0])) * fac * g(Poly.sym("self", "efficiency"))
             check_equal(run, "%s|value=read*factor*efficiency" % ci.name, val, want,
                         "written value = (value*scaling read) * conversion factor * efficiency", run.where(cs, final[0]))
     cs = g2p.methods["control_step"]
@@ -132,7 +136,10 @@ def r20_1(run):
         run.ob("G2P|%s-assigned-once" % attr, ok, "self.%s is assigned once" % attr, run.where(cs, cs.node))
         if ok:
             val = phys.tonum(ki.eval(asg[0].value, st))
-            check_equal(run, "G2P|%s" % attr, val, want(g(Poly.sym(src))),
+            free = sorted({a for gd, p_ in val.cases for a in p_.symbols() if not (len(a) >= 2 and a[1] == "self")}, key=repr)
+            if len(free) != 1:
+                raise AnalysisError("G2P.control_step: expected one value read from the net in %s" % val)
+            check_equal(run, "G2P|%s" % attr, val, want(g(Poly.atom(free[0]))),
                         "G2P: %s = %s %s (factor * efficiency)" % (attr, src, "/" if attr == "gas_cons" else "*"), run.where(cs, asg[0]))
     # round trip: P2G then G2P returns eta1*eta2*p
     p = Poly.sym("p")
@@ -318,4 +325,56 @@ def r20_5(run):
     r13_1(run)
 
 
-RULES = [("R20.1", r20_1), ("R20.2", r20_2), ("R20.3", r20_3), ("R20.4", r20_4), ("R20.5", r20_5)]
+def r20_6(run):
+    """the driver recalculates after a control step exactly the member nets a coupling controller names (get_all_net_names);
+    the names it returns must therefore be exactly the member nets its control_step / write_to_net read from or write to --
+    a net that is written but not named keeps the results of the previous calculation"""
+    from ..arrnf import ANF, C, walk
+    ix = run.index
+    n = 0
+    for ci in ix.module(MC).classes.values():
+        if "get_all_net_names" not in ci.methods:
+            continue
+        n += 1
+        g_ = ci.methods["get_all_net_names"]
+        run.analysed(g_)
+        r = ANF(ix, g_).run()
+        rets = r.returns()
+        named = None
+        if len(rets) == 1 and rets[0].value[0] in ("list", "tuple"):
+            named = {x[2] for x in rets[0].value[1] if x[0] == "attr" and x[1] == ("n", "self")}
+            if len(named) != len(set(rets[0].value[1])) and len(rets[0].value[1]) != len(named):
+                pass
+        used = set()
+        for mn in ("control_step", "write_to_net", "is_converged", "initialize_control", "finalize_control"):
+            m = ci.methods.get(mn)
+            if m is None:
+                continue
+            run.analysed(m)
+            rm = ANF(ix, m).run()
+            for e in rm.events:
+                ts = [e.value] if e.kind in ("store", "return", "raise") else ([e.term] if e.kind == "call" else [])
+                if e.kind == "store":
+                    ts += [e.base] + list(e.index)
+                for tr in rm.tries:
+                    pass
+                for t in ts:
+                    for x in walk(t):
+                        if x[0] == "idx" and len(x[2]) == 1 and x[2][0][0] == "attr" and x[2][0][1] == ("n", "self") \
+                                and x[1][0] == "idx" and x[1][2] == (C("nets"),):
+                            used.add(x[2][0][2])
+            for tr in rm.tries:
+                for h in tr["handlers"]:
+                    for v in h["env"].values():
+                        for x in walk(v):
+                            if x[0] == "idx" and len(x[2]) == 1 and x[2][0][0] == "attr" and x[2][0][1] == ("n", "self") \
+                                    and x[1][0] == "idx" and x[1][2] == (C("nets"),):
+                                used.add(x[2][0][2])
+        run.ob("%s|names-all-nets-it-touches" % ci.name, named is not None and bool(used) and used == named,
+               "%s.get_all_net_names returns exactly the member nets its control step reads or writes (%s)" % (ci.name, sorted(used)),
+               run.where(g_, g_.node), detail="named: %s" % (sorted(named) if named is not None else None))
+    run.ob("coupling-controllers-found", n >= 3, "controllers with get_all_net_names: %d" % n, MC)
+    run.floor(4)
+
+
+RULES = [("R20.1", r20_1), ("R20.2", r20_2), ("R20.3", r20_3), ("R20.4", r20_4), ("R20.5", r20_5), ("R20.6", r20_6)]
